@@ -173,7 +173,7 @@ func havoc(st *State) *State {
 
 func (in *Interp) onStack(fn *types.Func) bool {
 	for _, f := range in.stack {
-		if f == fn {
+		if f != nil && f == fn {
 			return true
 		}
 	}
